@@ -175,6 +175,12 @@ impl ColumnValues {
             // Typed numeric column has no string view
             return None;
         }
+        if self.typed_bool.is_some() {
+            // `b = true` / `b = false` are string conditions: give a bool block its textual view
+            return self
+                .get_bool_at(index)
+                .map(|b| if b { "true" } else { "false" });
+        }
         let (start, len) = *self.ranges.get(index)?;
         let bytes = &self.block.bytes[start..start + len];
         // Values are UTF-8 encoded when written; if invalid, return None.
